@@ -92,6 +92,32 @@ theorem midBody_NF (song : Song) (m : SAMap) (srcT srcStart dstT : Nat) (dst : L
   · exact jpSame_NF _ _ _ _ _ _ _ _ _ _ _ _
   · exact jpSame_NF _ _ _ _ _ _ _ _ _ _ _ _
 
+theorem midBodyS_NF (song : Song) (m : SAMap) (sa : SA) (srcT srcStart dstT : Nat) (dst : List Event) (isBal : Nat → Bool)
+    (dstPos : Nat) (s : Match × Counter × Counter × Int × Bool) :
+    NF (midBodyS song m sa srcT srcStart dstT dst isBal dstPos s) := by
+  unfold midBodyS
+  split
+  · exact NF_err (by simp)
+  · split <;> exact midBody_NF _ _ _ _ _ _ _ _ _
+
+theorem sgo_NF (sa : SA) (l : List Event) : ∀ (i : Nat) (d : Int) (acc : List Bool),
+    NF (sourcePrefixes.go sa l i d acc) := by
+  induction l with
+  | nil => intro i d acc; exact NF_ok _
+  | cons e rest ih =>
+    intro i d acc
+    simp only [sourcePrefixes.go]
+    repeat' (first | exact NF_ok _ | exact NF_err (by simp) | exact ih _ _ _ | split)
+
+theorem sourcePrefixes_NF (sa : SA) (src : List Event) (start : Nat) : NF (sourcePrefixes sa src start) := by
+  unfold sourcePrefixes
+  have := sgo_NF sa (src.drop start) start 0 []
+  split
+  · rename_i x hx
+    rw [hx] at this
+    exact this
+  · exact NF_ok _
+
 theorem otherBody_NF (song : Song) (m : SAMap) (srcT srcStart dstT : Nat) (isBal : Nat → Bool)
     (dstPos : Nat) (s : Counter × Counter) : NF (otherBody song m srcT srcStart dstT isBal dstPos s) := by
   unfold otherBody
@@ -104,13 +130,13 @@ theorem otherBody_NF (song : Song) (m : SAMap) (srcT srcStart dstT : Nat) (isBal
   · split <;> exact NF_pure _
   · exact NF_pure _
 
-theorem trackBody_NF (song : Song) (m : SAMap) (srcT srcStart : Nat) (isBal : Nat → Bool)
-    (x : Nat × List Event) (s : Match × Counter) : NF (trackBody song m srcT srcStart isBal x s) := by
+theorem trackBody_NF (song : Song) (m : SAMap) (sa : SA) (srcT srcStart : Nat) (isBal : Nat → Bool)
+    (x : Nat × List Event) (s : Match × Counter) : NF (trackBody song m sa srcT srcStart isBal x s) := by
   unfold trackBody
   split
   · exact NF_pure _
   split
-  · exact NF_bind (NF_forIn _ (fun a b => midBody_NF _ _ _ _ _ _ _ _ _) _ _) (fun _ => NF_pure _)
+  · exact NF_bind (NF_forIn _ (fun a b => midBodyS_NF _ _ _ _ _ _ _ _ _ _) _ _) (fun _ => NF_pure _)
   · exact NF_bind (NF_forIn _ (fun a b => otherBody_NF _ _ _ _ _ _ _ _) _ _) (fun _ => NF_pure _)
 
 theorem finalBody_NF (x : Nat × Nat) (mt : Match) : NF (finalBody x mt) := by
@@ -125,7 +151,9 @@ theorem findMatch_NF (song : Song) (m : SAMap) (srcT srcStart : Nat) : NF (findM
     simp [NF, bind, Except.bind, throw, throwThe, MonadExceptOf.throw]
   | some src =>
     rw [findMatch_eq song m srcT srcStart src hsrc]
-    apply NF_bind (NF_forIn _ (fun a b => trackBody_NF _ _ _ _ _ _ _) _ _)
+    apply NF_bind (sourcePrefixes_NF _ _ _)
+    intro bal
+    apply NF_bind (NF_forIn _ (fun a b => trackBody_NF _ _ _ _ _ _ _ _) _ _)
     intro s
     exact NF_bind (NF_forIn _ (fun a b => finalBody_NF _ _) _ _) (fun _ => NF_pure _)
 
